@@ -267,6 +267,18 @@ def run(rep, tier, seed, selftest):
             findings.add((clause,), "cli", "%s | %s" % (clause, canon(case["cfg"])),
                          {"case": case, "observed": {k: (v if not isinstance(v, str) else v[-800:]) for k, v in obs.items() if k != "ll"},
                           "ll_files": sorted(obs["ll"]), "message": msg, "how": "bin/check C18 --replay <this file>"})
+    # classified, not part of the product: an absolute input path (the property quantifies over relative ones)
+    probe = os.path.join(root, "abs")
+    os.makedirs(probe)
+    open(os.path.join(probe, "a.pn"), "w").write(A_ONE)
+    subprocess.run([penne, "emit", "--silent", "--out-dir", "outd", os.path.join(probe, "a.pn")], cwd=probe,
+                   stdout=subprocess.PIPE, stderr=subprocess.PIPE, timeout=120)
+    if os.path.exists(os.path.join(probe, "a.pn.ll")) and not os.path.exists(os.path.join(probe, "outd")):
+        rep.note_drift("emit --out-dir D /abs/a.pn writes /abs/a.pn.ll next to the source (PathBuf::push of an absolute path); "
+                       "absolute paths are outside the property's quantifier")
+    strict_silent = sum(1 for i, o in zip(idx, observations) if cases[i]["expect"]["silent"] and cases[i]["cfg"]["sub"] != "run" and o["stdout"] != "")
+    if strict_silent:
+        rep.note_drift("%d --silent configurations print line breaks on stdout (main() prints two after a failure)" % strict_silent)
     shutil.rmtree(root, ignore_errors=True)
     findings.flush(rep)
     for sg, n_ in sorted(findings.counts().items(), key=lambda x: -x[1]):
